@@ -301,14 +301,17 @@ func (this *LedgerStoreImp) recoverStore() error {
 		if err != nil {
 			return fmt.Errorf("save to event store height:%d error:%s", i, err)
 		}
+		verifCrashPoint(4)
 		err = this.eventStore.CommitTo()
 		if err != nil {
 			return fmt.Errorf("eventStore.CommitTo height:%d error %s", i, err)
 		}
+		verifCrashPoint(5)
 		err = this.stateStore.CommitTo()
 		if err != nil {
 			return fmt.Errorf("stateStore.CommitTo height:%d error %s", i, err)
 		}
+		verifCrashPoint(6)
 	}
 	return nil
 }
